@@ -295,4 +295,160 @@ theorem parse_block (skipped : List (List Tok)) (a : List Tok) (after : List (Li
   · have : getTrack s3 = getTrack s2 := by rw [hs3]; rfl
     rw [this, hres2, hgt1]
 
+/-! ### bodies -/
+
+/-- a body is well formed for track position `i` (followed by `e`): token runs satisfy `ToksOk`
+and are followed by a byte at which no number starts; a block has an alternative for position `i`,
+no alternative spells `/`, `;`, `}` or NUL, and the selected alternative satisfies `ToksOk` -/
+def ItemsOk (i : Nat) : List Item → List Nat → Prop
+  | [], _ => True
+  | .toks ts :: rest, e => ToksOk ts (itemsText rest e) ∧ StopEnd (itemsText rest e) ∧ ItemsOk i rest e
+  | .block alts :: rest, e => i < alts.length ∧ (∀ a ∈ alts, Clean (altText a)) ∧
+      ToksOk (alts.getD i []) (afterText (alts.drop (i + 1)) (itemsText rest e)) ∧ ItemsOk i rest e
+
+theorem selCmds_cons (i : Nat) (it : Item) (rest : List Item) : selCmds i (it :: rest) = cmdsOf (it.sel i) ++ selCmds i rest := by
+  simp [selCmds]
+
+theorem alts_split (alts : List (List Tok)) (i : Nat) (h : i < alts.length) :
+    alts = alts.take i ++ alts.getD i [] :: alts.drop (i + 1) ∧ (alts.take i).length = i := by
+  have hg : alts.getD i [] = alts[i] := by simp [List.getD, List.getElem?_eq_getElem h]
+  refine ⟨?_, by simp; omega⟩
+  rw [hg]
+  simp
+
+/-- `parse_mml_track` over a body with blocks, for track position `i` -/
+theorem parse_items (i : Nat) : ∀ (items : List Item) (e : List Nat) (f : Nat) (s : MmlState), Sane s →
+    s.conditionalBlock = false → s.trackOffset = i → suffix s = itemsText items e → ItemsOk i items e →
+    CmdsOk (getTrack s).strip (selCmds i items) → (itemsText items e).length + 1 ≤ f →
+    ∃ s' f', parseMmlTrackF f s = parseMmlTrackF f' s' ∧ e.length + 1 ≤ f' ∧ suffix s' = e ∧ Sane s' ∧ Moved s s' ∧
+      (getTrack s').strip = runCmds (getTrack s).strip (selCmds i items) := by
+  intro items
+  induction items with
+  | nil => intro e f s hs _ _ hsuf _ _ hf; exact ⟨s, f, rfl, hf, hsuf, hs, Moved.refl s, rfl⟩
+  | cons it rest ih =>
+    intro e f s hs hflag hoff hsuf hok hcmds hf
+    rw [selCmds_cons] at hcmds
+    obtain ⟨hc1, hc2⟩ := (cmdsOk_append _ _ _).mp hcmds
+    -- the first item, as a segment up to `E`
+    have hfirst : ∃ s1 f1, parseMmlTrackF f s = parseMmlTrackF f1 s1 ∧ (itemsText rest e).length + 1 ≤ f1 ∧ suffix s1 = itemsText rest e ∧
+        Sane s1 ∧ Moved s s1 ∧ (getTrack s1).strip = runCmds (getTrack s).strip (cmdsOf (it.sel i)) ∧ ItemsOk i rest e := by
+      cases it with
+      | toks ts =>
+        obtain ⟨h1, h2, h3⟩ := hok
+        obtain ⟨s1, f1, a1, a2, a3, a4, a5, a6⟩ := parse_seg ts.length ts (Nat.le_refl _) (itemsText rest e) f s hs h2 hsuf h1 hc1 hf
+        exact ⟨s1, f1, a1, a2, a3, a4, a5, a6, h3⟩
+      | block alts =>
+        obtain ⟨h1, h2, h3, h4⟩ := hok
+        obtain ⟨hsplit, hlen⟩ := alts_split alts i h1
+        have hsuf' : suffix s = blockText (alts.take i ++ alts.getD i [] :: alts.drop (i + 1)) (itemsText rest e) := by
+          rw [← hsplit]; exact hsuf
+        obtain ⟨s1, f1, a1, a2, a3, a4, a5, a6⟩ := parse_block (alts.take i) (alts.getD i []) (alts.drop (i + 1)) (itemsText rest e) f s hs hflag
+          (by rw [hlen]; exact hoff)
+          (fun b hb => h2 b (by
+            simp at hb
+            rcases hb with hb | hb
+            · exact List.mem_of_mem_take hb
+            · exact List.mem_of_mem_drop hb))
+          hsuf' h3 hc1 (by rw [← hsplit]; exact hf)
+        exact ⟨s1, f1, a1, a2, a3, a4, a5, a6, h4⟩
+    obtain ⟨s1, f1, a1, a2, a3, a4, a5, a6, hokr⟩ := hfirst
+    have hctl := a5.ctl
+    obtain ⟨s', f', b1, b2, b3, b4, b5, b6⟩ := ih e f1 s1 a4 (hctl.cond.trans hflag) (hctl.trackOffset.trans hoff) a3 hokr
+      (by rw [a6]; exact hc2) a2
+    exact ⟨s', f', a1.trans b1, b2, b3, b4, a5.trans b5, by rw [b6, a6, selCmds_cons, runCmds_append]⟩
+
+/-- result of a line for the tracks `ids`: position `j` receives `cmds j` -/
+structure LineResI (ids : List Nat) (cmds : Nat → List Cmd) (s s' : MmlState) : Prop where
+  tracks : ∀ j id, ids[j]? = some id → (trackOf id s').strip = runCmds (trackOf id s).strip (cmds j)
+  others : ∀ b, b ∉ ids → s'.song.tracks.lookup b = s.song.tracks.lookup b
+  ppqn : s'.song.ppqn = s.song.ppqn
+
+theorem LineResI.trans {ids : List Nat} {c1 c2 : Nat → List Cmd} {s1 s2 s3 : MmlState}
+    (h1 : LineResI ids c1 s1 s2) (h2 : LineResI ids c2 s2 s3) : LineResI ids (fun j => c1 j ++ c2 j) s1 s3 :=
+  ⟨fun j id hid => by rw [h2.tracks j id hid, h1.tracks j id hid, runCmds_append],
+   fun b hb => (h2.others b hb).trans (h1.others b hb), h2.ppqn.trans h1.ppqn⟩
+
+/-- the `for` loop of `parse_mml` over distinct tracks on a body with blocks: the track at
+position `i + j` receives the builder calls of its own selection -/
+theorem parseMmlLoop_items (items : List Item) (e : List Nat) (col : Nat) (he : EndOk e) :
+    ∀ (ids : List Nat) (i : Nat) (s : MmlState), Bytes s.inp.lb.buf → col ≤ s.inp.lb.buf.length →
+    s.inp.lb.buf.drop col = itemsText items e → ids.Nodup → i + ids.length ≤ 65536 →
+    (∀ j id, ids[j]? = some id → ItemsOk (i + j) items e ∧ CmdsOk (trackOf id s).strip (selCmds (i + j) items)) →
+    ∃ s', parseMmlLoop col i ids s = .ok () s' ∧ LoopKeeps s s' ∧
+      (∀ j id, ids[j]? = some id → (trackOf id s').strip = runCmds (trackOf id s).strip (selCmds (i + j) items)) ∧
+      (∀ b, b ∉ ids → s'.song.tracks.lookup b = s.song.tracks.lookup b) := by
+  intro ids
+  induction ids with
+  | nil => intro i s _ _ _ _ _ _; exact ⟨s, rfl, LoopKeeps.refl s, fun j id h => by simp at h, fun _ _ => rfl⟩
+  | cons id rest ih =>
+    intro i s hbytes hcol hdrop hnd hlen hcmds
+    obtain ⟨s1, hs1⟩ : ∃ s1 : MmlState, s1 = { setLb s (s.inp.lb.seek col) with trackId := id, trackOffset := i % 65536, song := (setLb s (s.inp.lb.seek col)).song.makeTrack id, conditionalBlock := false } := ⟨_, rfl⟩
+    have hsane1 : Sane s1 := by rw [hs1]; exact ⟨hbytes, hcol⟩
+    have hsuf1 : suffix s1 = itemsText items e := by rw [hs1]; exact hdrop
+    have hmk := makeTrack_lookup s.song id
+    have hgt1 : getTrack s1 = trackOf id s := by
+      rw [hs1]; unfold getTrack trackOf
+      show (List.lookup id (s.song.makeTrack id).tracks).getD (Track.new (s.song.makeTrack id).ppqn) = _
+      rw [hmk.1, hmk.2]; rfl
+    have hoff1 : s1.trackOffset = i := by
+      rw [hs1]; show i % 65536 = i
+      simp at hlen; omega
+    have hfuel : (itemsText items e).length + 1 ≤ trackFuel s1 := by
+      have h1 := suffix_length s1
+      rw [hsuf1] at h1
+      unfold trackFuel
+      have := hsane1.inl
+      omega
+    have h0 := hcmds 0 id (by simp)
+    simp only [Nat.add_zero] at h0
+    obtain ⟨sa, fa, a1, a2, a3, a4, a5, a6⟩ := parse_items i items e (trackFuel s1) s1 hsane1 (by rw [hs1]) hoff1 hsuf1 h0.1
+      (by rw [hgt1]; exact h0.2) hfuel
+    obtain ⟨s2, hp2, hm2, ht2⟩ := parse_toks_nil e fa sa he a3 (by omega)
+    have hmv : Moved s1 s2 := a5.trans hm2
+    have hres : (getTrack s2).strip = runCmds (trackOf id s).strip (selCmds i items) := by rw [ht2, a6, hgt1]
+    have hctl := hmv.ctl
+    have hpt : parseMmlTrack s1 = .ok () s2 := by
+      unfold parseMmlTrack; rw [bind_ok (getS_run s1), a1]; exact hp2
+    have hcond : s2.conditionalBlock = false := hctl.cond.trans (by subst hs1; rfl)
+    have hid1 : s1.trackId = id := by rw [hs1]
+    have hlk12 : ∀ b, b ≠ id → s2.song.tracks.lookup b = s.song.tracks.lookup b := by
+      intro b hb
+      rw [hctl.others b (by rw [hid1]; exact hb), hs1]
+      exact lookup_makeTrack_ne b id s.song hb
+    have hppqn2 : s2.song.ppqn = s.song.ppqn := by rw [hctl.ppqn, hs1]; exact hmk.2
+    have hkeep2 : LoopKeeps s s2 := ⟨hctl.trackList.trans (by subst hs1; rfl), hctl.lastCmd.trans (by subst hs1; rfl), hppqn2,
+      hctl.line.trans (by subst hs1; rfl), hctl.buf.trans (by subst hs1; rfl)⟩
+    have hnd' := List.nodup_cons.mp hnd
+    obtain ⟨s', hloop, hkeep, hall, hfr⟩ := ih (i + 1) s2 (by rw [hkeep2.buf]; exact hbytes) (by rw [hkeep2.buf]; exact hcol)
+      (by rw [hkeep2.buf]; exact hdrop) hnd'.2 (by simp at hlen ⊢; omega)
+      (fun j id' hid' => by
+        have hmem : id' ∈ rest := List.mem_of_getElem? hid'
+        have hne : id' ≠ id := fun e => hnd'.1 (e ▸ hmem)
+        rw [trackOf_congr id' s s2 (hlk12 id' hne) hppqn2]
+        have := hcmds (j + 1) id' (by simpa using hid')
+        have e2 : i + (j + 1) = i + 1 + j := by omega
+        rw [e2] at this
+        exact this)
+    refine ⟨s', ?_, hkeep2.trans hkeep, ?_, ?_⟩
+    · rw [parseMmlLoop_cons, ← hs1, hpt]
+      simp only [hcond, Bool.false_eq_true, if_false]
+      exact hloop
+    · intro j x hx
+      cases j with
+      | zero =>
+        have hx' : x = id := by simpa using hx.symm
+        subst hx'
+        rw [trackOf_congr x s2 s' (hfr x hnd'.1) hkeep.ppqn]
+        have : trackOf x s2 = getTrack s2 := by unfold trackOf getTrack; rw [hctl.trackId, hid1]
+        rw [this, hres]; rfl
+      | succ j =>
+        have hx' : rest[j]? = some x := by simpa using hx
+        have hmem : x ∈ rest := List.mem_of_getElem? hx'
+        have hne : x ≠ id := fun e => hnd'.1 (e ▸ hmem)
+        have e2 : i + (j + 1) = i + 1 + j := by omega
+        rw [hall j x hx', trackOf_congr x s s2 (hlk12 x hne) hppqn2, e2]
+    · intro b hb
+      simp at hb
+      rw [hfr b hb.2, hlk12 b hb.1]
+
 end Ctrmml.Mml
